@@ -137,6 +137,23 @@ MovesWinS(h, kn) ==
         \o (IF t.part # <<>> THEN <<MSummarize(i, <<KV("s", Agg("sum", Col(x)))>>)>> ELSE <<>>)
 
 ---------------------------------------------------------------------------
+(* tall tables: a short alphabet that is cheap to evaluate on > 100 rows *)
+MovesTall(h, kn) ==
+    LET i == Len(h)
+        t == h[i]
+        c(n) == Col(ByName(t)[n])
+        has(n) == n \in VisNames(t)
+    IN  (IF has("a") /\ has("b") THEN
+            <<MMutate(i, <<KV("x", Fn2("add", c("a"), c("b")))>>), MMutate(i, <<KV("a", Fn2("fill_null", c("a"), LitI(0)))>>),
+              MFilter(i, <<Fn1("is_not_null", c("a"))>>), MFilter(i, <<Fn2("gt", c("b"), LitI(0))>>),
+              MMutate(i, <<KV("w", Agg("count", c("a")))>>), MSummarize(i, <<KV("n", Agg("count", c("a"))), KV("s", Agg("sum", c("b")))>>),
+              MSelect(i, <<c("a"), c("b")>>)>> ELSE <<>>)
+        \o (IF has("rid") THEN <<MArrange(i, <<Ord(c("rid"), TRUE, "last")>>), MMutate(i, <<KV("r", Fn2("mod", c("rid"), LitI(3)))>>)>> ELSE <<>>)
+        \o (IF has("g") /\ t.part = <<>> THEN <<MGroupBy(i, <<c("g")>>, FALSE)>> ELSE <<>>)
+        \o (IF t.part = <<>> THEN <<MSlice(i, 5, 99), MSlice(i, 120, 0)>> ELSE <<>>)
+        \o (IF has("p") THEN <<MFilter(i, <<c("p")>>)>> ELSE <<>>)
+
+---------------------------------------------------------------------------
 (* C10: a handful of expression OBJECTS (the replayer keeps one python object per distinct expression) used *)
 (* under different grouping states, in mutate and in summarize, interleaved with other verbs                *)
 MovesImm(h, kn) ==
